@@ -265,6 +265,25 @@ def unmarshalOp (env : Array Dec) (json : Bool) (zs hs : String) : Step :=
                       tags := [if json then "unmarshaljson" else "unmarshaltext", "rejected"] })
   | _, _ => badStep env "unmarshal"
 
+/-- `fmt.Sscan(s, z)`: `(*Decimal).Scan` = skip leading space, then `z.scan(byteReader, 0)`: the longest valid
+    prefix is converted, what follows is left unread. `byteReader.ReadByte` reports an error for a multi-byte
+    rune, so a number directly followed by one is an error (the scanner always reads one byte ahead). -/
+def sscanOp (env : Array Dec) (zs hs : String) : Step :=
+  match getVar env zs, hexToBytes hs with
+  | some (zi, z), some bytes =>
+    let s := bytes.dropWhile (fun b => b == 32 || b == 9 || b == 10 || b == 13)
+    let multi := fun (l : List Nat) => match l with | b :: _ => b ≥ 194 && b ≤ 244 | [] => false
+    (match scanDec z s 0 with
+    | .ok (d, _, rest) =>
+      if multi rest then
+        { env := env, extra := "err", skipVars := [zi], spec := andSpec (frameOk env [zi]) canonicalAll, tags := ["sscan", "rejected", "multibyte"] }
+      else
+        { env := env.set! zi d, extra := "ok", spec := andSpec (frameOk env [zi]) canonicalAll,
+          tags := ["sscan", "accepted"] ++ (if rest.isEmpty then [] else ["prefix"]) ++ (if d.acc != 0 then ["inexact"] else []) }
+    | .error _ =>
+      { env := env, extra := "err", skipVars := [zi], spec := andSpec (frameOk env [zi]) canonicalAll, tags := ["sscan", "rejected"] })
+  | _, _ => badStep env "sscan"
+
 def doOp4 (env : Array Dec) (c : Ctx) (toks : List String) : Step :=
   match toks with
   | ["text", x, f, p] => textOp env x f p
@@ -275,6 +294,8 @@ def doOp4 (env : Array Dec) (c : Ctx) (toks : List String) : Step :=
   | ["unmarshaltext", z] => unmarshalOp env false z ""
   | ["unmarshaljson", z, h] => unmarshalOp env true z h
   | ["sprintf", x, h] => sprintfOp env x h
+  | ["sscan", z, h] => sscanOp env z h
+  | ["sscan", z] => sscanOp env z ""
   | ["parse", z, b, h] => parseOp env "parse" z b h
   | ["parse", z, b] => parseOp env "parse" z b ""
   | _ => doOp3 env c toks
